@@ -102,7 +102,8 @@ func genC09(x *Ctx) *c09Scen {
 			if focus {
 				r.Path = []string{"/a/x", "/a/x", "/a/x/"}[tp.G(3)]
 			}
-			r.Origin = []string{"http://good.example", "http://good.example", "HTTP://Good.Example", "http://evil.example", ""}[tp.G(5)]
+			// the last one: the server's own host name under the other scheme - a different origin all the same
+			r.Origin = []string{"http://good.example", "http://good.example", "HTTP://Good.Example", "http://evil.example", "", "https://sim"}[tp.G(6)]
 			switch tp.G(4) {
 			case 0, 1: // preflight
 				r.Method = "OPTIONS"
